@@ -343,6 +343,65 @@ theorem unsigned_nonneg_list : ∀ gs : List Geom, RectsOrderedList gs → 0 ≤
       linarith
 end
 
+/-! ### The whole geometry tree against the specification -/
+
+mutual
+/-- [T] `area_eq_spec`: for every geometry satisfying the geo-types invariants (rings closed, `Rect`
+corners ordered; C18), at every nesting depth, `signed_area` / `unsigned_area` of the model (the
+code's early returns, shift, folds) equal the specification built from the unshifted shoelace
+formula: exterior minus holes by magnitude, signed like the exterior; Rect and Triangle through
+their polygon form; collections as sums of their members. -/
+theorem area_eq_spec : ∀ g : Geom, TypeInv g →
+    signedArea g = specSigned g ∧ unsignedArea g = specUnsigned g
+  | .point _, _ => ⟨rfl, rfl⟩
+  | .line _ _, _ => ⟨rfl, rfl⟩
+  | .lineString _, _ => ⟨rfl, rfl⟩
+  | .multiPoint _, _ => ⟨rfl, rfl⟩
+  | .multiLineString _, _ => ⟨rfl, rfl⟩
+  | .polygon p, h => by
+      simp only [TypeInv, PolyClosed] at h
+      simp only [signedArea, unsignedArea, specSigned, specUnsigned, Poly.unsignedArea,
+        polygonArea_eq_spec p h.1 h.2, and_self]
+  | .multiPolygon ps, h => by
+      simp only [TypeInv, PolyClosed] at h
+      rw [(multiPolygon_additive ps).1, (multiPolygon_additive ps).2]
+      simp only [specSigned, specUnsigned]
+      constructor
+      · congr 1; apply List.map_congr_left; intro p hp
+        exact polygonArea_eq_spec p (h p hp).1 (h p hp).2
+      · congr 1; apply List.map_congr_left; intro p hp
+        simp only [Poly.unsignedArea, polygonArea_eq_spec p (h p hp).1 (h p hp).2]
+  | .rect mn mx, h => by
+      simp only [TypeInv] at h
+      have hs := (rect_eq_polygon_form mn mx).1
+      have hu := rect_unsigned_eq_polygon_form mn mx h.1 h.2
+      have hp := polygonArea_eq_spec (rectToPoly mn mx) (by rfl) (by intro h hh; cases hh)
+      rw [hs, hu]
+      simp only [specSigned, specUnsigned, Poly.unsignedArea, hp, and_self]
+  | .triangle a b c, _ => by
+      have hp := polygonArea_eq_spec (triToPoly a b c) (by simp [triToPoly]) (by intro h hh; cases hh)
+      rw [(triangle_eq_polygon_form a b c).1, (triangle_eq_polygon_form a b c).2]
+      simp only [specSigned, specUnsigned, Poly.unsignedArea, hp, and_self]
+  | .collection gs, h => by
+      simp only [TypeInv] at h
+      rw [(collection_additive gs).1, (collection_additive gs).2]
+      simp only [specSigned, specUnsigned]
+      exact area_eq_spec_list gs h
+theorem area_eq_spec_list : ∀ gs : List Geom, TypeInvList gs →
+    sumRat (gs.map signedArea) = specSignedList gs ∧ sumRat (gs.map unsignedArea) = specUnsignedList gs
+  | [], _ => ⟨rfl, rfl⟩
+  | g :: gs, h => by
+      simp only [TypeInvList] at h
+      have h1 := area_eq_spec g h.1
+      have h2 := area_eq_spec_list gs h.2
+      simp only [List.map_cons, sumRat, specSignedList, specUnsignedList, h1.1, h1.2, h2.1, h2.2, and_self]
+end
+
+example : TypeInv (.collection [.rect ⟨0, 0⟩ ⟨2, 3⟩, .collection [.triangle ⟨0, 0⟩ ⟨1, 0⟩ ⟨0, 1⟩],
+    .polygon ⟨[⟨0, 0⟩, ⟨1, 0⟩, ⟨1, 1⟩, ⟨0, 0⟩], []⟩]) := by
+  simp only [TypeInv, TypeInvList, PolyClosed]
+  refine ⟨⟨by norm_num, by norm_num⟩, ⟨trivial, trivial⟩, ⟨by decide, by simp⟩, trivial⟩
+
 /-! ### winding_order -/
 
 /-- [T] `winding_order` is `CounterClockwise` exactly when the ring has at least 4 coordinates, is
@@ -485,6 +544,76 @@ theorem pivotTriple_none_iff (r : List Pt) :
         obtain ⟨pv, p0, nx⟩ := t
         obtain ⟨hp0, hpv, _, hne, _⟩ := pivot_spec r pv p0 nx hp'
         exact absurd ((hp pv hpv).trans (hp p0 hp0).symm) hne
+
+/-! ### Winding order against the sign of the area
+
+Full statement (not proved; spec-adequacy assumption [S], tied by correspondence on thousands of
+non-convex simple rings per run): for every simple closed ring `r`,
+  windingOrder r = some .ccw ↔ 0 < shoelace2 r   and   windingOrder r = some .cw ↔ shoelace2 r < 0.
+It needs the global fact that the lexicographically least vertex of a simple polygon is strictly
+convex. Proved below for triangles, where every vertex is a valid pivot. -/
+
+private theorem triangle_pivot (a b c : Pt) (hab : a ≠ b) (hbc : b ≠ c) (hca : c ≠ a) :
+    ∃ pv p nx, pivotTriple [a, b, c, a] = some (pv, p, nx) ∧
+      cross pv p nx = shoelace2 [a, b, c, a] := by
+  obtain ⟨i, p, hl⟩ := leastIndex_isSome (r := [a, b, c, a]) (by simp)
+  obtain ⟨hidx, hmin⟩ := leastIndex_spec hl
+  have hp : p ∈ [a, b, c, a] := List.mem_of_getElem? hidx
+  simp only [List.mem_cons, List.not_mem_nil, or_false] at hp
+  have hsh : shoelace2 [a, b, c, a] = det a b + det b c + det c a := by
+    simp only [shoelace2]; ring
+  rcases hp with rfl | rfl | rfl | rfl
+  · refine ⟨c, p, b, ?_, ?_⟩
+    · have := pivotTriple_shape1 [b, c] p (by simp [hab, hca.symm]) hmin
+      simpa [tripleOf] using this
+    · rw [hsh]; simp only [cross, det]; ring
+  · refine ⟨a, p, c, ?_, ?_⟩
+    · have := pivotTriple_shape2 [a] [c, a] p (by simp [hab.symm]) (by simp [hbc, hab.symm]) hmin
+      simpa [tripleOf] using this
+    · rw [hsh]; simp only [cross, det]; ring
+  · refine ⟨b, p, a, ?_, ?_⟩
+    · have := pivotTriple_shape2 [a, b] [a] p (by simp [hca, hbc.symm]) (by simp [hca]) hmin
+      simpa [tripleOf] using this
+    · rw [hsh]; simp only [cross, det]; ring
+  · refine ⟨c, p, b, ?_, ?_⟩
+    · have := pivotTriple_shape1 [b, c] p (by simp [hab, hca.symm]) hmin
+      simpa [tripleOf] using this
+    · rw [hsh]; simp only [cross, det]; ring
+
+/-- [Tp] `windingOrder_eq_sign_area` for triangles (closed rings of three distinct points): the
+winding order is counter-clockwise exactly when the exact shoelace area is positive, clockwise
+exactly when it is negative, `None` exactly when it is zero. -/
+theorem windingOrder_eq_sign_area_triangle_partial (a b c : Pt)
+    (hab : a ≠ b) (hbc : b ≠ c) (hca : c ≠ a) :
+    (windingOrder [a, b, c, a] = some .ccw ↔ 0 < shoelace2 [a, b, c, a]) ∧
+    (windingOrder [a, b, c, a] = some .cw ↔ shoelace2 [a, b, c, a] < 0) ∧
+    (windingOrder [a, b, c, a] = none ↔ shoelace2 [a, b, c, a] = 0) := by
+  obtain ⟨pv, p, nx, hp, hc⟩ := triangle_pivot a b c hab hbc hca
+  have hcl : ringClosed [a, b, c, a] = true := by simp [ringClosed]
+  refine ⟨?_, ?_, ?_⟩
+  · rw [windingOrder_ccw_iff]
+    constructor
+    · rintro ⟨_, _, pv', p', nx', hp', hc'⟩
+      rw [hp] at hp'; cases hp'; rw [← hc]; exact hc'
+    · intro h; exact ⟨by simp, hcl, pv, p, nx, hp, by rw [hc]; exact h⟩
+  · rw [windingOrder_cw_iff]
+    constructor
+    · rintro ⟨_, _, pv', p', nx', hp', hc'⟩
+      rw [hp] at hp'; cases hp'; rw [← hc]; exact hc'
+    · intro h; exact ⟨by simp, hcl, pv, p, nx, hp, by rw [hc]; exact h⟩
+  · rw [windingOrder_none_iff]
+    constructor
+    · rintro (h | h | h | ⟨pv', p', nx', hp', hc'⟩)
+      · simp at h
+      · rw [hcl] at h; cases h
+      · rw [hp] at h; cases h
+      · rw [hp] at hp'; cases hp'; rw [← hc]; exact hc'
+    · intro h; exact Or.inr (Or.inr (Or.inr ⟨pv, p, nx, hp, by rw [hc]; exact h⟩))
+
+example : windingOrder [⟨5, 1⟩, ⟨0, 0⟩, ⟨2, 7⟩, ⟨5, 1⟩] = some .cw := by
+  rw [(windingOrder_eq_sign_area_triangle_partial ⟨5, 1⟩ ⟨0, 0⟩ ⟨2, 7⟩
+    (by simp) (by simp) (by simp)).2.1]
+  norm_num [shoelace2, det]
 
 /-! ### orient -/
 
